@@ -381,7 +381,9 @@ def inst_lang_file(rng):
     if unary:
         # unary 3-state automata (tails and cycles): two of them can agree on every word up to their number of states
         # and differ on a word of length 4 - below the bound 5 of the second question
-        D = small_dfa(rng, 3, "a")
+        back = rng.randrange(3)
+        D = _mkdfa(["s0", "s1", "s2"], "a", {("s0", "a"): "s1", ("s1", "a"): "s2", ("s2", "a"): "s%d" % back}, "s0",
+                   [q for q in ("s0", "s1", "s2") if rng.random() < 0.5])
         length = 2
     path = write("ref_%d.dfa" % rng.randrange(10 ** 9), da.print_dfa(D))
     N = U.random_nfa(rng, rng.randint(1, 3), "ab", eps="ε", prefix="q")
@@ -409,8 +411,12 @@ def inst_lang_file(rng):
             length = keep
     muts = dfa_mutants(D, rng, 3) + [("nfa", N)]
     if unary:
-        muts = [("unary/%d" % i, small_dfa(rng, 3, "a")) for i in range(8)] + muts
-    raws = [("other_length/%d" % i, (lambda M=M: submit_other_length(M))) for i, (_, M) in enumerate(muts[:8 if unary else 3])]
+        # every 3-state chain s0 -> s1 -> s2 -> s_back with every accepting set: 24 answers
+        muts = [("unary/%d/%d" % (b, fm), _mkdfa(["s0", "s1", "s2"], "a",
+                                                 {("s0", "a"): "s1", ("s1", "a"): "s2", ("s2", "a"): "s%d" % b}, "s0",
+                                                 [q for i, q in enumerate(("s0", "s1", "s2")) if (fm >> i) & 1]))
+                for b in range(3) for fm in range(8)] + muts
+    raws = [("other_length/%d" % i, (lambda M=M: submit_other_length(M))) for i, (_, M) in enumerate(muts[:24 if unary else 3])]
     return D, submit, muts, raws
 
 
@@ -447,6 +453,8 @@ def simple_grammar(rng, cnf=False, nondeg=True):
     import gambatools.cfg_algorithms as ca
     if not cnf and rng.random() < 0.15:
         return U.make_cfg(rng.choice(LAYERED))
+    if not cnf and rng.random() < 0.12:
+        return U.make_cfg(rng.choice(cfgsrc.LONG_RHS[:3]))     # right-hand sides of 5-7 symbols
     for _ in range(200):
         G = cfgsrc.build(cfgsrc.random_src(rng, cnf=cnf))
         if not (ca.cfg_is_simple(G) and {r.variable for r in G.R} == set(G.V) and G.R[0].variable == G.S and
